@@ -38,8 +38,16 @@ func refYAML(c refCase, declOrder int) string {
 	if declOrder%2 == 1 {
 		names = []string{"p4", "p3", "p2", "p1"}
 	}
+	if _, has := c.Cfg.Pipes[""]; has {
+		// a pipeline declared under the empty name
+		if declOrder%2 == 1 {
+			names = append([]string{""}, names...)
+		} else {
+			names = append(names, "")
+		}
+	}
 	for _, p := range names {
-		fmt.Fprintf(&b, "  %s:\n", p)
+		fmt.Fprintf(&b, "  %s:\n", map[bool]string{true: `""`, false: p}[p == ""])
 		for _, s := range c.Cfg.Pipes[p] {
 			first := "    - "
 			if s.Name != "" {
@@ -85,9 +93,9 @@ func CheckC18(env *core.Env, rep *core.Report) *core.Result {
 		}
 		cases = append(cases, c)
 	}
-	e.note("Refs", r, fmt.Sprintf("%d configurations: the base one and one per broken reference (stage->task x5, stage->pipeline x1, depends_on unknown / other pipeline's stage x4 each, duplicate stage name x4, watcher->task, inclusion cycles of length 1, 2, 3); WellFormed evaluated; OnlyBaseWellFormed holds", len(cases)))
-	if len(cases) != 38 {
-		core.Broken("Refs emitted %d cases, expected 38", len(cases))
+	e.note("Refs", r, fmt.Sprintf("%d configurations: the base one and one per broken reference (stage->task x5, stage->pipeline x1, depends_on unknown / other pipeline's stage x4 each, duplicate stage name x4, watcher->task, inclusion cycles of length 1, 2, 3, a pipeline declared under the empty name that a reference-less stage then names: itself, acyclically, in a 2-cycle); WellFormed evaluated; OnlyBaseWellFormed holds", len(cases)))
+	if len(cases) != 41 {
+		core.Broken("Refs emitted %d cases, expected 41", len(cases))
 	}
 	sort.Slice(cases, func(i, j int) bool { return core.JSON(cases[i].Mut) < core.JSON(cases[j].Mut) })
 	n := 0
@@ -126,7 +134,11 @@ func CheckC18(env *core.Env, rep *core.Report) *core.Result {
 			}
 			// consequence: pipelines of an accepted configuration run to completion
 			if list.Exit == 0 {
-				for _, p := range []string{"p1", "p2", "p3", "p4"} {
+				pnames := []string{"p1", "p2", "p3", "p4"}
+				if _, has := c.Cfg.Pipes[""]; has {
+					pnames = append(pnames, "")
+				}
+				for _, p := range pnames {
 					if g := e.run(d, "", 10*time.Second, "-c", f, "graph", p); g.TimedOut || g.Crashed() {
 						add("accepted-pipeline-breaks-graph:"+kind, fmt.Sprintf("`graph %s` of an accepted configuration hung or crashed", p))
 					}
@@ -150,18 +162,15 @@ func CheckC18(env *core.Env, rep *core.Report) *core.Result {
 							for _, st := range c.Cfg.Pipes[q] {
 								if st.Task != "" {
 									want[st.Task] = true
-								} else if st.Pipe != "" {
+								} else if _, has := c.Cfg.Pipes[st.Pipe]; has {
 									closure(st.Pipe, depth+1)
 								}
 							}
 						}
 						closure(p, 0)
-						ranT := map[string]bool{}
-						for _, ln := range strings.Split(run.Stdout, "\n") {
-							ranT[strings.TrimSpace(ln)] = true
-						}
+						// (raw output of stages that run together may interleave within a line: "t2t1\n\n")
 						for tn := range want {
-							if !ranT[tn] {
+							if !strings.Contains(run.Stdout, tn) {
 								add("accepted-pipeline-does-not-run-what-it-refers-to", fmt.Sprintf("pipeline %s ran without running task %s, which it refers to (through an included pipeline or directly)", p, tn))
 								break
 							}
